@@ -35,9 +35,12 @@ let cfg = ref { aC = nat_of_int 1024; tL = nat_of_int 8 }
 let counter = ref (n_of_int 1)
 let decls : tdecl list ref = ref []
 
+(* byte patterns are a convention of the harness (same formula as in c09_tasklocal.c), not part of the model *)
+let byte_tab = Array.init 256 n_of_int
+let pat seed i = byte_tab.((seed * 131 + i * 7 + (i lsr 8)) land 0xff)
+let pattern_list seed n = List.init n (fun i -> pat seed i)
 let argbytes slot argsz =
-  let pat = pattern_bytes (n_of_int (7000 + slot)) (nat_of_int argsz) in
-  List.mapi (fun i b -> if i < 4 then n_of_int ((slot lsr (8 * i)) land 0xff) else b) pat
+  List.init argsz (fun i -> if i < 4 then byte_tab.((slot lsr (8 * i)) land 0xff) else pat (7000 + slot) i)
 
 let parse_ops toks =
   List.filter_map (fun s -> if s = "" then None else
@@ -73,8 +76,8 @@ let run order =
               | RDesc (_, o, _) -> Printf.sprintf " D %d %d %d 1 1 %s" (int_of_nat o) avail tlsz (hex view)
               | RBlob (_, _) -> Printf.sprintf " B %d %d %d 1 1 %s" off avail tlsz (hex view)))
         | 'w' ->
-          let n = match size_tasklocal !cfg !st tid with Some n -> n | None -> O in
-          (match tl_write !cfg !st tid O (pattern_bytes (n_of_int a) n) with
+          let n = match size_tasklocal !cfg !st tid with Some n -> int_of_nat n | None -> 0 in
+          (match tl_write !cfg !st tid O (pattern_list a n) with
            | Some s' -> st := s'; ""
            | None -> " OOB")
         | 'y' | 'b' | 'x' -> ""
